@@ -148,7 +148,7 @@ def run():
 
 
 def _flag(rep):
-    """get_has_free_wyckoff_parameters: true iff some occupied letter has a non-empty variable set (all 230 groups, every letter subset size 1)"""
+    """get_has_free_wyckoff_parameters: true iff some occupied letter has a non-empty variable set (all 230 groups; every single letter, every pair of letters, all letters)"""
     m = contexts.symmetry_ctx()
     INFO, WY, NZ = tabvc.load_tables()
     f = m.get("SymmetryAnalyzer.get_has_free_wyckoff_parameters")
@@ -156,7 +156,9 @@ def _flag(rep):
     n = 0
     for sg in range(1, 231):
         letters = sorted(k for k in WY[sg] if k != "translations")
-        combos = [[L] for L in letters] + [letters] + [[letters[0], letters[-1]]]
+        import itertools as _it
+        # every single letter, every pair (a letter without and a letter with a free parameter in either alphabetical order), all letters
+        combos = [[L] for L in letters] + [list(c) for c in _it.combinations(letters, 2)] + [letters]
         for occ in combos:
             ex = Explorer("flag")
 
@@ -308,6 +310,9 @@ def replay(ob):
         if r.get("reproduced"):
             return r
     r = tr.replay_wyckoff_supercells()
+    if r.get("reproduced"):
+        return r
+    r = tr.replay_flag(([w["sg"]] if "sg" in w else []) + [194, 139, 166, 47, 225, 62, 221])
     if r.get("reproduced"):
         return r
     return {"reproduced": False}
